@@ -147,6 +147,20 @@ class EnumVal:
         return hash((self.cls, self.name))
 
 
+class EnumSym:
+    """symbolic member of an Enum class (element read from a symbolic-length list): integer code term"""
+
+    def __init__(self, cls, t):
+        self.cls, self.t = cls, t
+
+
+class EnumValueSym:
+    """.value of a symbolic enum member: only its truthiness and equality with constants are observable"""
+
+    def __init__(self, cls, t):
+        self.cls, self.t = cls, t
+
+
 class SDict:
     """dict with symbolic (string-sorted) keys: has(key) predicate and value function; immutable view"""
 
@@ -174,6 +188,14 @@ class Exists:
         self.hi = hi
         self.body = body
         self.guard = guard
+
+
+class Hyp:
+    """hypothetical clause: hyps (Bool terms / Forall) |- goal   (goals with universally quantified premises)"""
+
+    def __init__(self, hyps, goal):
+        self.hyps = hyps
+        self.goal = goal
 
 
 class Func:
